@@ -515,6 +515,44 @@ impl Property for C09 {
     }
 
     fn generate(&self, rng: &mut Rng, _run: u64, _tier: Tier) -> Sc {
+        if rng.chance(1, 120) {
+            // a large stream (well over 64 KiB) of many small entries, written in
+            // one call, in large chunks, or copied 8 KiB at a time: a real
+            // pkg_summary has thousands of entries
+            let n = rng.urange(150, 320);
+            let entries: Vec<Entry> = (0..n)
+                .map(|_| {
+                    let mut e = gen_entry(rng, false, false);
+                    // keep entries small: drop the optional list variables
+                    for k in [3usize, 4, 19, 20, 22] {
+                        e.remove(&k);
+                    }
+                    e
+                })
+                .collect();
+            let bad = if rng.chance(1, 4) { Some(gen_bad(rng, &entries)) } else { None };
+            let driver = if rng.chance(2, 3) { Driver::Direct } else { Driver::Copy };
+            let mut sc = Sc {
+                entries,
+                bad,
+                driver,
+                chunks: Vec::new(),
+                script: Vec::new(),
+                refeed: Vec::new(),
+            };
+            let len = render(&sc).bytes.len();
+            let lens: Vec<usize> = match rng.below(4) {
+                0 => Vec::new(),
+                1 => vec![65_536; len / 65_536],
+                2 => vec![100_000; len / 100_000],
+                _ => vec![rng.urange(60_000, 70_000)],
+            };
+            match driver {
+                Driver::Direct => sc.chunks = lens,
+                Driver::Copy => sc.script = lens.into_iter().map(ReadStep::Give).collect(),
+            }
+            return sc;
+        }
         let n = match rng.below(8) {
             0 => 1,
             1..=5 => rng.urange(1, 4),
@@ -647,6 +685,13 @@ impl Property for C09 {
         if mon.writes.len() > 1 {
             ctx.nontrivial = true;
         }
+        if bytes.len() > 65_536 {
+            ctx.probe("stream-over-64KiB");
+            ctx.nontrivial = true;
+            if mon.writes.iter().any(|(l, _)| *l > 65_536) {
+                ctx.probe("single-write-over-64KiB");
+            }
+        }
         for p in &mon.probes {
             ctx.probe(p);
         }
@@ -744,8 +789,55 @@ impl Property for C09 {
         Ok(())
     }
 
-    fn shrink(&self, sc: &Sc) -> Vec<Sc> {
-        let mut out = Vec::new();
+    fn shrink(&self, sc: &Sc, emit: &mut dyn FnMut(Sc) -> bool) {
+        macro_rules! push {
+            ($e:expr) => {
+                if emit($e) {
+                    return;
+                }
+            };
+        }
+        if sc.entries.len() > 8 {
+            // a large stream: first get rid of whole blocks of entries (cheap,
+            // few candidates); values are only simplified once it is small
+            let n = sc.entries.len();
+            let bad_idx = sc.bad.as_ref().map(|b| b.index);
+            let mut ranges: Vec<(usize, usize)> = vec![(0, n / 2), (n / 2, n)];
+            let q = (n / 4).max(1);
+            let mut a = 0;
+            while a < n {
+                ranges.push((a, (a + q).min(n)));
+                a += q;
+            }
+            for i in 0..n.min(24) {
+                ranges.push((i, i + 1));
+                ranges.push((n - 1 - i, n - i));
+            }
+            for (a, b) in ranges {
+                if let Some(bi) = bad_idx {
+                    if bi >= a && bi < b {
+                        continue;
+                    }
+                }
+                let mut s = sc.clone();
+                s.entries.drain(a..b);
+                if let Some(bd) = &mut s.bad {
+                    if bd.index >= b {
+                        bd.index -= b - a;
+                    }
+                }
+                if !s.entries.is_empty() {
+                    push!(s);
+                }
+            }
+            for c in shrink_vec(&sc.chunks) {
+                push!(Sc { chunks: c, ..sc.clone() });
+            }
+            for c in shrink_vec(&sc.script) {
+                push!(Sc { script: c, ..sc.clone() });
+            }
+            return;
+        }
         // drop entries
         if sc.entries.len() > 1 {
             for i in 0..sc.entries.len() {
@@ -756,18 +848,18 @@ impl Property for C09 {
                     Some(b) if b.index > i => b.index -= 1,
                     _ => {}
                 }
-                out.push(s);
+                push!(s);
             }
         }
         // simplify the schedule
         for c in shrink_vec(&sc.chunks) {
-            out.push(Sc { chunks: c, ..sc.clone() });
+            push!(Sc { chunks: c, ..sc.clone() });
         }
         for c in shrink_vec(&sc.script) {
-            out.push(Sc { script: c, ..sc.clone() });
+            push!(Sc { script: c, ..sc.clone() });
         }
         if !sc.refeed.is_empty() {
-            out.push(Sc { refeed: vec![], ..sc.clone() });
+            push!(Sc { refeed: vec![], ..sc.clone() });
         }
         if sc.driver == Driver::Copy {
             // same partition through direct writes
@@ -777,7 +869,7 @@ impl Property for C09 {
                 .filter_map(|s| if let ReadStep::Give(n) = s { Some(*n) } else { None })
                 .collect();
             if lens.len() == sc.script.len() {
-                out.push(Sc {
+                push!(Sc {
                     driver: Driver::Direct,
                     chunks: lens,
                     script: vec![],
@@ -790,7 +882,7 @@ impl Property for C09 {
             let mut c = sc.chunks.clone();
             c[i] += c[i + 1];
             c.remove(i + 1);
-            out.push(Sc { chunks: c, ..sc.clone() });
+            push!(Sc { chunks: c, ..sc.clone() });
         }
         // drop optional variables, shorten values
         for (ei, e) in sc.entries.iter().enumerate() {
@@ -798,7 +890,7 @@ impl Property for C09 {
                 if !VARS[*k].required {
                     let mut s = sc.clone();
                     s.entries[ei].remove(k);
-                    out.push(s);
+                    push!(s);
                 }
                 let simpler: Vec<Val> = match v {
                     Val::S(t) if !t.is_empty() => {
@@ -840,7 +932,7 @@ impl Property for C09 {
                     if &nv != v {
                         let mut s = sc.clone();
                         s.entries[ei].insert(*k, nv);
-                        out.push(s);
+                        push!(s);
                     }
                 }
             }
@@ -850,10 +942,9 @@ impl Property for C09 {
             for m in shrink_usize(sc.chunks[i]) {
                 let mut c = sc.chunks.clone();
                 c[i] = m;
-                out.push(Sc { chunks: c, ..sc.clone() });
+                push!(Sc { chunks: c, ..sc.clone() });
             }
         }
-        out
     }
 
     fn sweep(&self, sc: &Sc, run: u64, tier: Tier) -> Vec<Sc> {
@@ -999,6 +1090,8 @@ impl Property for C09 {
             "bad-int",
             "bad-missing-required",
             "bad-invalid-utf8",
+            "stream-over-64KiB",
+            "single-write-over-64KiB",
         ]
     }
 }
